@@ -576,6 +576,9 @@ func stdinChild(planJSON string) {
 		if plan.Mode == "json" {
 			cr, name = jsonds.Creator, "stdin.json"
 		}
+		if plan.Mode == "csv" {
+			cr, name = csvds.Creator(','), "stdin.csv"
+		}
 		// the typecheck phase creates the datasource once per mention of the table
 		for i := 1; i < len(plan.Previews); i++ {
 			_, _, err := cr(ctx, name, map[string]string{})
@@ -755,12 +758,15 @@ func coqCell(s string) string {
 var projCells = []string{"1", "2", "-7", "2.5", "abc", "", "true", "é", "x y", "2020-01-02T03:04:05Z", "+5", "q\"uote", "a,b"}
 var projNames = []string{"a", "b", "c", "id", "Name", "é", "column_0", "x y", "0"}
 
-func csvProjCase(cf *lib.CaseFile, r *lib.Rng, dir string, idx int) {
+func csvProjCase(cf *lib.CaseFile, r *lib.Rng, dir string, idx int, fixed [][]string) {
 	ncols := 1 + r.Intn(4)
 	header := r.Chance(2, 3)
 	nrows := r.Intn(7)
 	var records [][]string
-	if header {
+	if fixed != nil {
+		header, ncols, nrows = true, len(fixed[0]), 0
+		records = fixed
+	} else if header {
 		perm := append([]string{}, projNames...)
 		for i := range perm {
 			j := i + r.Intn(len(perm)-i)
@@ -775,7 +781,7 @@ func csvProjCase(cf *lib.CaseFile, r *lib.Rng, dir string, idx int) {
 			colPool[j] = append(colPool[j], projCells[r.Intn(len(projCells))])
 		}
 	}
-	for i := 0; i < nrows; i++ {
+	for i := 0; i < nrows && fixed == nil; i++ {
 		row := make([]string, ncols)
 		for j := range row {
 			row[j] = colPool[j][r.Intn(len(colPool[j]))]
@@ -838,7 +844,7 @@ func csvProjCase(cf *lib.CaseFile, r *lib.Rng, dir string, idx int) {
 		}
 		js := map[string]interface{}{"kind": "csv-projection", "file": trunc(b.String()), "header": header, "used_columns": keep, "records": len(recs), "err": fmt.Sprint(err)}
 		ci := cf.Add(fmt.Sprintf("CCsv (%s, %s, %s, %s, %s, %s)", lib.CoqBool(header), lib.CoqList(recItems), lib.CoqList(keepBits), lib.CoqList(names), lib.CoqList(rows), lib.CoqBool(err == nil)),
-			js, len(keep) < n && nrows > 0)
+			js, len(keep) < n && (nrows > 0 || fixed != nil))
 		cf.Count("csv_projection_reads")
 		if len(keep) < n {
 			cf.Count("csv_projection_pruned_reads")
@@ -1022,6 +1028,62 @@ func main() {
 		}
 	}
 
+	// stdin, wide rows: the schema preview (json: 100 lines, csv: header + 100 rows) needs several reads of the
+	// previewing consumer's 4 KiB buffer, and the previewed part has to be replayed intact
+	for _, mode := range []string{"json", "csv", "lines"} {
+		for _, shape := range [][2]int{{150, 120}, {101, 60}, {400, 45}} {
+			nrows, width := shape[0], shape[1]
+			var in bytes.Buffer
+			var want []string
+			if mode == "csv" {
+				in.WriteString("a,b\n")
+			}
+			for j := 0; j < nrows; j++ {
+				text := fmt.Sprintf("row-%d-%s", j, strings.Repeat(string(rune('a'+j%26)), width))
+				switch mode {
+				case "json":
+					fmt.Fprintf(&in, "{\"i\":%d,\"s\":\"%s\"}\n", j, text)
+					want = append(want, fmt.Sprintf("%v\x1f'%s'", octosql.NewFloat(float64(j)).String(), text))
+				case "csv":
+					fmt.Fprintf(&in, "%d,%s\n", j, text)
+					want = append(want, fmt.Sprintf("%d\x1f'%s'", j, text))
+				default:
+					fmt.Fprintf(&in, "%s\n", text)
+					want = append(want, fmt.Sprintf("%d\x1f'%s'", j, text))
+				}
+			}
+			plan := stdinPlan{Mode: mode, Previews: [][]int{{1}, {1}}[:1+(nrows%2)]}
+			out, err := runStdinChild(plan, in.Bytes(), []int{3000, 5000})
+			js := map[string]interface{}{"kind": "stdin-wide-rows-" + mode, "rows": nrows, "row_width": width, "input_bytes": in.Len()}
+			ci := cf.Add("CStdin ([], [], [], [])", js, true)
+			cf.Count("stdin_wide_rows")
+			if err != nil {
+				cf.Violation(ci, "stdin run failed: "+err.Error(), "")
+				continue
+			}
+			if e, ok := out["err"]; ok {
+				cf.Violation(ci, fmt.Sprintf("%s source over stdin (%d rows of %d bytes) failed: %v", mode, nrows, width, e), "")
+				continue
+			}
+			var recs []string
+			if l, ok := out["records"].([]interface{}); ok {
+				for _, x := range l {
+					recs = append(recs, x.(string))
+				}
+			}
+			if len(recs) != len(want) {
+				cf.Violation(ci, fmt.Sprintf("%s source over stdin returned %d records for %d rows of %d bytes", mode, len(recs), nrows, width), "")
+				continue
+			}
+			for j := range want {
+				if recs[j] != want[j] {
+					cf.Violation(ci, fmt.Sprintf("%s source over stdin (%d rows of %d bytes): record %d is %q, expected %q", mode, nrows, width, j, trunc(recs[j]), trunc(want[j])), "")
+					break
+				}
+			}
+		}
+	}
+
 	// stdin, a reader that stalls: (lines before the stall, lines after it) around the 64-line batch
 	for _, fr := range [][2]int{{64, 1}, {64, 64}, {130, 70}, {200, 200}, {128, 5}, {63, 10}} {
 		plan := stdinPlan{Mode: "jsonpause", First: fr[0], Rest: fr[1]}
@@ -1172,8 +1234,27 @@ func main() {
 	parquetSlice(cf, rng.Fork(), dir, f.Cases(40, 400))
 
 	// csv with pruned field lists, tied to the record-level model
-	for i, n := 0, f.Cases(30, 400); i < n; i++ {
-		csvProjCase(cf, rng.Fork(), dir, i)
+	// the same cell text in two columns of different types, first seen in either of them
+	sharedIdx := 0
+	kinds := map[string][]string{"Int": {"1", "2"}, "Float": {"2.5", "0.5"}, "String": {"abc", "x y"}, "Boolean": {"true", "false"}, "Time": {"2020-01-02T03:04:05Z"}}
+	for _, pr := range [][3]string{{"Int", "Float", "2"}, {"Int", "String", "2"}, {"Float", "String", "2.5"}, {"Boolean", "String", "true"}, {"Time", "String", "2020-01-02T03:04:05Z"}, {"Int", "Float", "-7"}} {
+		for _, swap := range []bool{false, true} {
+			ka, kb := pr[0], pr[1]
+			if swap {
+				ka, kb = kb, ka
+			}
+			recs := [][]string{{"a", "b", "c"}}
+			recs = append(recs, []string{kinds[ka][0], kinds[kb][0], "z"})
+			recs = append(recs, []string{pr[2], kinds[kb][1%len(kinds[kb])], pr[2]})
+			recs = append(recs, []string{kinds[ka][1%len(kinds[ka])], pr[2], "z"})
+			recs = append(recs, []string{pr[2], pr[2], pr[2]})
+			csvProjCase(cf, rng.Fork(), dir, 100000+sharedIdx, recs)
+			cf.Count("csv_shared_cell_text_files")
+			sharedIdx++
+		}
+	}
+	for i, n := 0, f.Cases(24, 400); i < n; i++ {
+		csvProjCase(cf, rng.Fork(), dir, i, nil)
 	}
 
 	// csv: oracle only
